@@ -361,6 +361,66 @@ def _judge_list_sender(sc):
     return None
 
 
+def _judge_caller_arrays(tag):
+    """the caller's own arrays between two calls: (i) chunks handed over through ONE pre-allocated buffer that is refilled before each call, model
+    Input >> Reservoir with Reservoir <<= Input (the Input node's state must not be a view of the caller's buffer); (ii) successive single-step calls of a
+    node, and of a model, whose RETURNED vector the caller post-processes in place (np.maximum(y, 0, out=y)): outputs equal those of one run"""
+    import reservoirpy as rpy
+    rpy.verbosity(0)
+    from reservoirpy.nodes import Input, Reservoir
+    out = []
+    rs = np.random.RandomState(7)
+    W, Win, Wfb = rs.randint(-4, 5, (3, 3)) / 8.0, rs.randint(-4, 5, (3, 2)) / 4.0, rs.randint(-4, 5, (3, 2)) / 4.0
+    X = rs.randint(-8, 9, (9, 2)) / 4.0
+
+    def mk(k, fb):
+        kw = dict(W=W, Win=Win, bias=np.zeros((3, 1)), lr=0.5, activation=lambda v: np.clip(v, -1, 1), name="ca%s_r%s" % (tag, k))
+        if fb:
+            kw["Wfb"] = Wfb
+        return Reservoir(3, **kw)
+    # (i) one reused buffer
+    sc = {"kind": "caller-arrays", "what": "reused-buffer", "tag": tag}
+    try:
+        i1, r1 = Input(name="ca%s_i1" % tag), mk("1", True)
+        r1 <<= i1
+        whole = (i1 >> r1).run(X)
+        i2, r2 = Input(name="ca%s_i2" % tag), mk("2", True)
+        r2 <<= i2
+        m2 = i2 >> r2
+        buf = np.zeros((3, 2))
+        got = []
+        for k in range(0, 9, 3):
+            buf[:] = X[k:k + 3]
+            got.append(np.array(m2.run(buf)))
+        got = np.vstack(got)
+        if not np.allclose(got, whole, atol=1e-12):
+            out.append({"key": "chunking:state-aliases-caller-buffer", "what": "Input >> Reservoir with feedback from the Input node, chunks handed over through one refilled "
+                        "buffer: outputs differ from one run over the whole sequence (max %.3g)" % float(np.max(np.abs(got - whole))), "scenario": sc,
+                        "expected": whole.tolist(), "observed": got.tolist()})
+    except Exception as e:  # noqa: BLE001
+        out.append({"key": "caller-arrays:exception", "what": "reused-buffer probe raises %r" % (e,), "scenario": sc, "expected": None, "observed": None})
+    # (ii) returned vector edited in place by the caller
+    for level in ("node", "model"):
+        sc = {"kind": "caller-arrays", "what": "returned-vector-edited:" + level, "tag": tag}
+        try:
+            ra, rb = mk("a" + level[0], False), mk("b" + level[0], False)
+            whole = ra.run(X) if level == "node" else (Input(name="ca%s_ia" % tag) >> ra).run(X)
+            target = rb if level == "node" else (Input(name="ca%s_ib" % tag) >> rb)
+            rows = []
+            for x in X:
+                y = target.call(x)
+                rows.append(np.array(y).ravel().copy())
+                np.maximum(y, 0.0, out=y)              # the caller's own post-processing of what it was handed
+            got = np.vstack(rows)
+            if not np.allclose(got, whole, atol=1e-12):
+                out.append({"key": "calls:returned-array-aliases-state:%s" % level, "what": "successive %s calls whose returned vector the caller edits in place "
+                            "(np.maximum(y, 0, out=y)) differ from one run (max %.3g): the returned array is the stored state itself"
+                            % (level, float(np.max(np.abs(got - whole)))), "scenario": sc, "expected": whole.tolist(), "observed": got.tolist()})
+        except Exception as e:  # noqa: BLE001
+            out.append({"key": "caller-arrays:exception", "what": "returned-vector probe (%s) raises %r" % (level, e), "scenario": sc, "expected": None, "observed": None})
+    return out
+
+
 def oracle(ctx, scale=1):
     rng = ctx.rng("oracle")
     n = ctx.n(60, 600) * scale
@@ -373,6 +433,7 @@ def oracle(ctx, scale=1):
     for i in range(ns):
         out += _judge_special(rng, "%d_%d" % (ctx.seed, i))
     out += _judge_dtype(rng, "%d" % ctx.seed)
+    out += _judge_caller_arrays("%d" % ctx.seed)
     nl = ctx.n(3, 20)
     lrng = ctx.rng("oracle-list-sender")
     for i in range(nl):
@@ -390,7 +451,9 @@ def replay(payload):
     if mt:                                     # a disagreeing Model.train history stored by the correspondence
         return trainmodel.replay(mt[0])
     sc = payload["scenario"]
-    if sc.get("kind") == "dtype":
+    if sc.get("kind") == "caller-arrays":
+        v = [w for w in _judge_caller_arrays("rp") if w["key"] == payload.get("key", w["key"])]
+    elif sc.get("kind") == "dtype":
         v = _judge_dtype(core.random.Random(0), "rp")
     elif sc.get("kind") == "list-sender":
         v = _judge_list_sender(sc)
